@@ -96,14 +96,21 @@ def _ps_gen_vn(net):
     return out
 
 
-def plan(fault, nbus, hot_pair, full):
-    """calc_sc configurations of one (net, case, fault, lv_tol): list of dict(sn, inv, bus, kappa, topo, role)."""
-    buses = list(range(nbus))
+def plan(fault, buses, hot_pair, full):
+    """calc_sc configurations of one (net, case, fault, lv_tol): list of dict(sn, inv, bus, kappa, topo).
+    buses: the bus labels of the net.  full: every (sn, inverse_y) x (all, each single bus, each pair); otherwise (k=2 cases of
+    the quick tier) all four (sn, inverse_y) with bus=None, each single bus + the hot pair under (1, False) and (100, True),
+    the hot pair under (100, False)."""
+    buses = list(buses)
     singles = [[b] for b in buses]
     pairs = [list(p) for p in itertools.combinations(buses, 2)] if full else [list(hot_pair)]
     cfgs = []
     for sn, inv in itertools.product((1, 100), (True, False)):
-        for bus in [None] + singles + pairs:
+        if full or (sn, inv) in ((1, False), (100, True)):
+            args = [None] + singles + pairs
+        else:
+            args = [None] + ([list(hot_pair)] if (sn, inv) == (100, False) else [])
+        for bus in args:
             if sn == 1 and inv and bus is None:
                 continue
             cfgs.append({"sn": sn, "inv": inv, "bus": bus, "kappa": "C", "topo": "auto"})
@@ -196,7 +203,11 @@ def _run_case(case):
     if oc != "ok":
         out["outcome"] = oc
         return out
-    nbus = len(net0.bus)
+    labels = [int(b) for b in net0.bus.index]
+    bmap = {}
+    for d in case["devs"]:
+        if d[0] == "sc_reindex":
+            bmap = f_sc.bus_map(len(labels), d[1])
     live = [int(b) for b in ref.index if ref.at[b, "ikss_ka"] == ref.at[b, "ikss_ka"]]
     out["outcome"] = "ok"
     if live:
@@ -244,8 +255,8 @@ def _run_case(case):
                 out["violations"].append(core.violation("thevenin", {"bus": b, "rk_ohm": rk, "xk_ohm": xk, "model": pred},
                                                         tokens=toks, klass="thevenin"))
     # invariance: sn_mva, inverse_y, bus argument; kappa bounds under every kappa_method/topology
-    hot = case.get("hot_pair") or [0, 1]
-    for cfg in plan(fault, nbus, hot, case.get("full", False)):
+    hot = [bmap.get(b, b) for b in (case.get("hot_pair") or [0, 1])]
+    for cfg in plan(fault, labels, hot, case.get("full", False)):
         oc, res = run(cfg)
         name = "sn=%s,inv=%s,bus=%s,kappa=%s,topo=%s" % (cfg["sn"], cfg["inv"], cfg["bus"], cfg["kappa"], cfg["topo"])
         if oc != "ok":
@@ -255,7 +266,7 @@ def _run_case(case):
             continue
         same_kappa = (cfg["kappa"], cfg["topo"]) == ("C", "auto")
         ccols = cols if same_kappa else [c for c in cols if c not in ("ip_ka", "ith_ka")]
-        want = list(range(nbus)) if cfg["bus"] is None else cfg["bus"]
+        want = labels if cfg["bus"] is None else cfg["bus"]
         if sorted(int(b) for b in res.index) != sorted(want):
             out["violations"].append(core.violation("result_rows", {"cfg": name, "rows": [int(b) for b in res.index], "bus": want},
                                                     tokens=toks0, klass="rows"))
